@@ -293,6 +293,21 @@ def gen_history(rng, pools, tier):
                 slots[nslot] = {"languages": [L2], "settings": copy.deepcopy(var)}
                 ops.append({"op": "new_parser", "slot": nslot, "kw": slots[nslot], "clock_us": clock()})
             ops.append({"op": "get_date_data", "slot": 1, "ctor": slots[1], "s": refdep, "clock_us": clock()})
+        elif tmpl < 0.15:
+            # T4 a live instance on which a call raises *inside* a parser (not a ValueError), then an
+            # order-sensitive call on the same instance; 'tl' first in the given order has no date order of its own
+            Lx = rng.choice([l for l in langs if l not in ("en", "tl")] or ["fr"])
+            Px = pools["langs"].get(Lx) or pools["langs"]["fr"]
+            nslot += 1
+            slots[nslot] = {"languages": ["tl", Lx], "use_given_order": True, "settings": rng.choice([{"TO_TIMEZONE": "UTC"}, {"TIMEZONE": "UTC"}, dict(copy.deepcopy(var), TO_TIMEZONE="UTC")])}
+            ops.append({"op": "new_parser", "slot": nslot, "kw": slots[nslot], "clock_us": clock()})
+            num = "%02d/%02d/%d" % (rng.randrange(1, 13), rng.randrange(1, 13), rng.randrange(2000, 2030))
+            if rng.random() < 0.5:
+                ops.append({"op": "get_date_data", "slot": nslot, "ctor": slots[nslot], "s": num, "clock_us": clock()})
+            jan = (Px["months"][0] or ["1"])[0]
+            dec = (Px["months"][11] or ["12"])[0]
+            ops.append({"op": "get_date_data", "slot": nslot, "ctor": slots[nslot], "s": rng.choice(["1 %s 0001 00:00 +05:00" % jan, "31 %s 9999 23:59 -0500" % dec]), "clock_us": clock()})
+            ops.append({"op": "get_date_data", "slot": nslot, "ctor": slots[nslot], "s": num, "clock_us": clock()})
         elif tmpl < 0.22:
             # T2 custom-settings traffic, then default-settings calls that read the module default
             for _ in range(rng.choice([1, 2])):
